@@ -488,6 +488,8 @@ impl<'t> RRIterator<'t> {
     pub fn skip_name(packet: &[u8], mut offset: usize) -> usize {
         let packet_len = packet.len();
         loop {
+            #[cfg(dnssector_verif)]
+            crate::verif::tick(crate::verif::SITE_SKIP_NAME);
             let label_len = match packet[offset] {
                 len if len & 0xc0 == 0xc0 => {
                     assert!(packet_len - offset > 2);
